@@ -170,6 +170,22 @@ theorem step_inv {p : Prog} {s s' : State} {u : Nat} (h : PInv p s) (hs : step p
         refine pinv_emit1 h hu rfl (fun w hw => fut_setUnit_ne hw) ?_ (hlt1 _ rfl)
         rw [hfu0, denCode]
         simp [fut, State.setUnit, State.emit, hst']
+      | remote o =>
+        cases hx : (s.units u).ctx with
+        | none =>
+          rw [hx] at hs hfu0
+          simp only [Option.some.injEq] at hs
+          subst hs
+          refine pinv_silent1 h hu rfl (fun w hw => fut_setUnit_ne hw) ?_ (hlt1 _ rfl)
+          rw [hfu0, denCode]
+          simp [fut, State.setUnit, hst', hx]
+        | some a =>
+          rw [hx] at hs hfu0
+          simp only [Option.some.injEq] at hs
+          subst hs
+          refine pinv_emit1 h hu rfl (fun w hw => fut_setUnit_ne hw) ?_ (hlt1 _ rfl)
+          rw [hfu0, denCode]
+          simp [fut, State.setUnit, State.emit, hst']
       | withOf o =>
         simp only at hs
         split at hs
@@ -366,6 +382,12 @@ theorem step_shape {p : Prog} {s s' : State} {u : Nat} (hs : step p s u = some s
         simp only [Option.some.injEq] at hs; subst hs
         exact ⟨(by simp [State.setUnit]), (by simp [State.setUnit]), (by intro v h; cases h),
           Or.inl (by intro w hw; simp [State.setUnit, State.emit, hw])⟩
+      | remote o =>
+        cases hx : (s.units u).ctx <;>
+        · rw [hx] at hs
+          simp only [Option.some.injEq] at hs; subst hs
+          exact ⟨(by simp [State.setUnit]), (by simp [State.setUnit]), (by intro v h; cases h),
+            Or.inl (by intro w hw; simp [State.setUnit, State.emit, hw])⟩
       | withOf o =>
         simp only at hs
         split at hs
@@ -427,6 +449,7 @@ theorem joinedB_pend {code : List Stmt} : ∀ {pend : List (Nat × Nat)} {d : Na
       exact List.mem_cons_of_mem _ (ih h.2 e he)
     | log o => exact List.mem_cons_of_mem _ (ih (by simpa [joinedB] using h) e he)
     | create o => exact List.mem_cons_of_mem _ (ih (by simpa [joinedB] using h) e he)
+    | remote o => exact List.mem_cons_of_mem _ (ih (by simpa [joinedB] using h) e he)
     | withOf o => exact List.mem_cons_of_mem _ (ih (by simpa [joinedB] using h) e he)
     | ctxOf o => exact List.mem_cons_of_mem _ (ih (by simpa [joinedB] using h) e he)
     | spawnThread v =>
